@@ -27,11 +27,24 @@ MANIFEST = {
 def gen_targeted(run, n):
     rng = run.rng
     base = C16.gen_targeted(run, n // 4) + [dict(c, kind="targeted") for c in cv.gen_random_cases(run, n // 4)]
+    # programs that never touch the target: the runtime's own root read is then the ONLY target operation,
+    # and a target whose root cannot be read must still make the run end with an error
+    free = [[lit(True)], [("assign", ("tvar", "x", []), lit(ji(1))), ("op", "add", ("var", "x"), lit(ji(1)))],
+            [("call", "is_null", False, [lit(js("abc"))])],
+            [("if", [lit(True)], [lit(js("yes"))], [lit(js("no"))])],
+            [("assign", ("tvar", "x", []), ("arr", [lit(ji(1)), lit(ji(2))])), ("closure", "map_values", ("var", "x"), ["v"], [("var", "v")])]]
+    for ast in free:
+        base.append({"kind": "targeted", "ast": ast, "event": cv.rand_event(rng), "meta": jo([]), "vars": ["x", "v"],
+                     "meta_info": {"ctx": ["target-free"]}, "force_faults": [True]})
+        base.append({"kind": "targeted", "ast": ast, "event": cv.rand_event(rng), "meta": jo([]), "vars": ["x", "v"],
+                     "meta_info": {"ctx": ["target-free"]}, "force_faults": [False, True]})
     cases = []
     pid = 0
     for b in base:
         k = rng.random()
-        if k < 0.5:
+        if "force_faults" in b:
+            faults = b["force_faults"]
+        elif k < 0.5:
             pos = rng.randint(0, 9)
             faults = [False] * pos + [True]
         else:
